@@ -156,6 +156,14 @@ def run_specs(pid, tier, seed, factor, judge):
                      iterative=False)
             c["patterns"] = upword.rand_patterns(rnd, "abc", 3, 2)
             cfgs.append(c)
+    if pid == "C01":
+        # classes that can only be counted through a reverse product rule (quotient by a non-atom sibling): forest database
+        for _ in range(common.scale(tier, 24, 240) * factor):
+            c = specrun.rand_config(rnd, None)
+            c.update(gram=[rnd.choice(["Q", "Q", "P", "K", "R"]) for _ in range(rnd.choice([1, 1, 2]))], gram_flat=True, alpha="ab", patterns=[],
+                     params=[], mode="", prefix="", prefver=None, packver=None, factory=None, rot=False, sep=None, reverse_needed=False,
+                     symmetry=False, inferral=False, iterative=False, smallest=False, reverse=True, db="RuleDBForest")
+            cfgs.append(c)
     outs = specrun.pool_map(worker, [(c, N) for c in cfgs])
     specrun.quiet()
     # a specification whose counting fails (status evalexc / evaltimeout) still has a skeleton: it is judged as well
